@@ -107,8 +107,9 @@ InterpreterEnv::InterpreterEnv(std::vector<valtype>& stack_in, const CScript& sc
     }
     nOpCount = 0;
     fRequireMinimal = (flags & SCRIPT_VERIFY_MINIMALDATA) != 0;
-    // figure out if p2sh
+    // figure out if p2sh (a scriptPubKey template: a witness script or tapscript leaf of this shape is an ordinary script)
     is_p2sh = (
+        sigversion == SigVersion::BASE &&
         (flags & SCRIPT_VERIFY_P2SH) &&
         script.size() == 23 &&
         script[0] == OP_HASH160 &&
